@@ -16,13 +16,17 @@ for d in sorted(glob.glob(os.path.join(ROOT, "seeded", "C*", "*"))):
     by = [f"{k} ({v.get('tier','quick')})" for k, v in sorted(res.items()) if v.get("exit") == 1 and v.get("violation_lines", 0) > 0]
     missed = [k for k, v in sorted(res.items()) if v.get("exit") == 0]
     status = "caught by " + ", ".join(by) if by else ("MISSED" if res else "not run")
+    if missed and by:
+        status += " (not by " + ", ".join(missed) + ")"
     if by: caught += 1
     hist = meta.get("history", "")
     confirm = ""
     if conf:
         confirm = "suite %s; demo fails with / passes without: %s/%s" % (conf.get("suite"), conf.get("demo_with_patch") == "fail", conf.get("demo_without_patch") == "pass")
+    elif meta.get("suite_passes") is True:
+        confirm = "suite passed in the sub-agent's worktree (not re-run by the coordinator for lack of time)"
     rows.append(f"| `{rel}` | {esc(meta.get('title',''))} | {esc(', '.join(meta.get('files', [])))} | {status}{'; ' + hist if hist else ''} | {confirm} |")
-out = [f"{total} seeded changes (two per property, each written by a fresh sub-agent that saw only the property text and a scratch worktree), {caught} caught by a registered check.\n",
+out = [f"{total} seeded changes (four per property: variants a, b from round 1, c, d from round 2; each written by a fresh sub-agent that saw only the property text and a scratch worktree), {caught} caught by a registered check.\n",
        "| change | what it breaks | file | outcome | confirmation in a scratch worktree |", "|---|---|---|---|---|"] + rows
 p = os.path.join(ROOT, "DESIGN.md")
 s = open(p).read()
